@@ -47,7 +47,7 @@ def cases(desc):
     for i in range(desc["n"]):
         if desc["block"] == "json":
             sp = gen.spec(rng, mindim=0, maxdim=3, dtype=rng.choice('fi'), nan=rng.choice([0, 0.3]))
-            pool = [("units", "K"), ("n", 3), ("xv", 2.5), ("l", [1, 2, 3]), ("d", {"k": [1, "a"]}), ("none", None), ("b", True),
+            pool = [("units", "K"), ("n", 3), ("xv", 2.5), ("l", [1, 2, 3]), ("d", {"k": [1, "a"]}), ("none", None), ("b", True), ("valid_range", (0, 10)), ("empty_tuple", ()), ("nested", [(1, 2), {"t": (3,)}]),
                     # metadata stored under names the attribute protocol does not reach (class members, underscore, a dimension name)
                     ("shape", "round"), ("_hidden", 4), ("values", "v"), ("ndim", [7])] + ([(sp["dims"][0], "named like a dimension")] if sp["dims"] else [])
             attrs = {k: v for k, v in rng.sample(pool, rng.randint(0, 5))}
@@ -135,7 +135,9 @@ def json_case(case, ctx):
             want = {'i': 'int', 'f': 'float', 's': 'str'}[k]
             if ax.values.size and model.KIND_CLASS.get(ax.values.dtype.kind) != want:
                 ctx.v(ID, "json:label-kind", "%s: labels of %r came back as %s, were %s" % (label, d, ax.values.dtype, want))
-        if monitors.freeze(dict(r.attrs)) != monitors.freeze(case["attrs"]):
+        import json as _json
+        want_attrs = _json.loads(_json.dumps(case["attrs"]))       # the JSON image of the metadata (tuples come back as lists)
+        if monitors.freeze(dict(r.attrs)) != monitors.freeze(want_attrs):
             ctx.v(ID, "json:attrs", "%s: attrs %r, expected the JSON-representable entries %r" % (label, r.attrs, case["attrs"]))
     d2, exc = ctx.call("from_jsondict(to_jsondict(a))", lambda: da.DimArray.from_jsondict(a.to_jsondict()), operands=(a,))
     common.expect(ctx, ID, "jsondict", "from_jsondict(to_jsondict(a)) " + label, d2, exc, exp=m, must_be_da=True)
